@@ -99,6 +99,19 @@ requires
     valid(*cell), cell.resolution >= 0,
 //@end
 
+//@extract fn lonlat_to_estimate from src/core/cell.rs ret=res tags=C14
+//@rewrite "let dodecahedron = DodecahedronProjection::get_thread_local();" => ""
+//@rewrite "dodecahedron.forward(" => "dodecahedron_forward("
+//@rewrite "let extra_angle = 2.0 * PI_OVER_5.get() * quintant as f64;\n        let cos_angle = (-extra_angle).cos();\n        let sin_angle = (-extra_angle).sin();\n        let rotated_x = cos_angle * dodec_point.x() - sin_angle * dodec_point.y();\n        let rotated_y = sin_angle * dodec_point.x() + cos_angle * dodec_point.y();\n        dodec_point = Face::new(rotated_x, rotated_y);" => "dodec_point = rotate_into_fifth(dodec_point, quintant);"
+//@rewrite "let scale_factor = 2.0_f64.powi(hilbert_resolution);" => "let scale_factor = f_pow2(hilbert_resolution);"
+//@rewrite "dodec_point = Face::new(\n        dodec_point.x() * scale_factor,\n        dodec_point.y() * scale_factor,\n    );" => "dodec_point = f_scale_face(dodec_point, scale_factor);"
+//@spec
+requires
+    0 <= resolution <= 29,
+ensures
+    res is Ok ==> res->Ok_0.origin_id < 12 && res->Ok_0.segment < 5 && res->Ok_0.resolution == resolution,   // [C14:lonlat_to_estimate.fields]
+//@end
+
 //@extract fn lonlat_to_cell from src/core/cell.rs ret=res tags=C14
 //@fnattr #[verifier::loop_isolation(false)]
 //@rewrite "!(0..MAX_RESOLUTION).contains(&resolution)" => "!(0 <= resolution && resolution < MAX_RESOLUTION)"
